@@ -16,6 +16,12 @@ fn prefix_of(class: &str, good: &str) -> String {
         }
         "empty" => String::new(),
         "toolong" => "a".repeat(84),
+        "nonascii" => {
+            let mut c: Vec<char> = good.chars().collect();
+            c.pop();
+            c.push('\u{151}'); // 'ő': 0x151 truncates to 0x51 ('Q')
+            c.into_iter().collect()
+        }
         "other" => "cosmos".to_string(),
         _ => format!("{} x", good), // a space: outside the allowed character range
     }
@@ -40,6 +46,11 @@ fn addr_of(class: &str, good: &str) -> Value {
         }
         "notbech32" => json!("not-an-address"),
         "upper" => json!(good.to_uppercase()),
+        "mixedcase" => {
+            // valid when folded to one case, invalid as spelled (BIP-173 forbids mixed case)
+            let n = good.len();
+            json!(format!("{}{}", &good[..n - 3], good[n - 3..].to_uppercase()))
+        }
         _ => json!(""),
     }
 }
